@@ -33,6 +33,7 @@ fn bytes_of(rb: &RefBlock) -> [u8; 8] {
 // @harness c15_refblock_get
 // @props C15 C03 C09
 // @tier quick
+// @cost 7
 // @timeout 600
 // @desc RefBlock::get (__get) of every width equals the spec: big-endian words for widths >= 8, LSB-first packing inside a byte for widths < 8; entries() == bytes*8/refcount_bits; for every slice content and index
 // @bounds slice: 8 bytes arbitrary content (64 entries at 1 bit .. 1 entry at 64 bit); refcount_order 0..=6 symbolic; index: every entry
@@ -58,6 +59,7 @@ fn c15_refblock_get() {
 // @harness c15_refblock_set
 // @props C15 C03
 // @tier quick
+// @cost 29
 // @timeout 900
 // @desc RefBlock::__set of every width: refuses exactly the values that do not fit and then leaves the slice unchanged; otherwise the addressed entry reads back the value per the spec layout and NO other entry and no byte outside the entry changes
 // @bounds slice: 8 bytes arbitrary content; refcount_order 0..=6 symbolic; every index, every u64 value; frame checked for every other index/byte (symbolic)
@@ -107,6 +109,7 @@ fn c15_refblock_set() {
 // @harness c03_refcount_step
 // @props C03 C08 C15
 // @tier quick
+// @cost 54
 // @timeout 900
 // @desc RefBlock::increment / decrement: exactly the addressed entry changes, by exactly +1 / -1; an increment at the width's maximum and a decrement at 0 are refused and leave the slice unchanged
 // @bounds slice: 8 bytes arbitrary content; refcount_order 0..=6 symbolic; every index; frame for every other index
@@ -233,6 +236,7 @@ macro_rules! free_range_harness {
 // @harness c08_free_range_o2
 // @props C08 C03
 // @tier quick
+// @cost 181
 // @timeout 900
 // @desc same as c08_free_range_o0 at 4-bit refcounts (16 entries)
 // @bounds slice: 8 bytes arbitrary content; count 1..=4; start any; refcount_order 2 (concrete)
@@ -243,6 +247,7 @@ free_range_harness!(c08_free_range_o2, 2, 4, 18);
 // @harness c08_free_range_o3
 // @props C08 C03
 // @tier quick
+// @cost 35
 // @timeout 900
 // @desc same at 8-bit refcounts (8 entries)
 // @bounds slice: 8 bytes arbitrary content; count 1..=4; start any; refcount_order 3 (concrete)
@@ -253,6 +258,7 @@ free_range_harness!(c08_free_range_o3, 3, 4, 10);
 // @harness c08_free_range_o4
 // @props C08 C03
 // @tier quick
+// @cost 142
 // @timeout 900
 // @desc same at 16-bit refcounts (4 entries), the default width
 // @bounds slice: 8 bytes arbitrary content; count 1..=4; start any; refcount_order 4 (concrete)
@@ -263,6 +269,7 @@ free_range_harness!(c08_free_range_o4, 4, 4, 10);
 // @harness c08_free_range_o5
 // @props C08 C03
 // @tier quick
+// @cost 131
 // @timeout 900
 // @desc same at 32-bit refcounts (2 entries)
 // @bounds slice: 8 bytes arbitrary content; count 1..=2; start any; refcount_order 5 (concrete)
@@ -273,6 +280,7 @@ free_range_harness!(c08_free_range_o5, 5, 2, 10);
 // @harness c03_alloc_range
 // @props C03 C08
 // @tier quick
+// @cost 173
 // @timeout 900
 // @desc RefBlock::alloc_range(s,e) on a free window: every entry in [s,e) goes 0 -> 1, no entry outside changes
 // @bounds slice: 8 bytes arbitrary content; refcount_order 0..=6 symbolic; e-s <= 4
@@ -314,6 +322,7 @@ fn c03_alloc_range() {
 // @harness c15_reftable_entry
 // @props C15 C14 C03
 // @tier quick
+// @cost 21
 // @timeout 300
 // @desc RefTableEntry decode/validate: refblock_offset = bits 9..63, reserved = bits 0..8; try_from_plain accepts every spec-valid entry and everything it accepts has reserved bits clear and a cluster-aligned offset; RefTable::set_refblock_offset stores exactly the offset (big-endian) and marks the containing block dirty
 // @bounds raw: all u64; geometry symbolic; 8-entry table
@@ -363,6 +372,7 @@ fn c15_reftable_entry() {
 // @harness c15_dirty_blocks
 // @props C15 C16 C02
 // @tier quick
+// @cost 209
 // @timeout 600
 // @desc top-table dirty-block queue (RefTable instantiation): after set_dirty on up to 3 arbitrary entries, the queue pops each dirty block exactly once, block idx == (8*i) >> bs_bits for a marked entry, the byte range [idx<<bs, (idx+1)<<bs) contains that entry, and the queue is empty afterwards; pop_dirty_blk_idx(Some(x)) removes exactly x
 // @bounds 3 entries, indices < 2^22 (8 MiB / 32 MiB tables); block bits 9..=12 symbolic
